@@ -461,7 +461,23 @@ impl Ctx {
         if let Some(u) = self.clients.get(&n) {
             return *u;
         }
-        let u = Uuid::new_v4();
+        let u = if n >= 2000 {
+            // a near miss of client (n - 2000) / 10: an id that shares most of its bits with that one
+            let base = self.client((n - 2000) / 10);
+            let mut b = *base.as_bytes();
+            let r = *Uuid::new_v4().as_bytes();
+            match n % 10 {
+                0 => b[15] ^= 1,
+                1 => b[0] ^= 0x80,
+                2 => b[8..].copy_from_slice(&r[8..]),
+                3 => b[..8].copy_from_slice(&r[..8]),
+                4 => b.reverse(),
+                _ => b[7] ^= 0x10,
+            }
+            Uuid::from_bytes(b)
+        } else {
+            Uuid::new_v4()
+        };
         self.clients.insert(n, u);
         self.canon.id(u);
         u
